@@ -517,85 +517,85 @@ func checkValueExtraction(c *core.Ctx, rule string) {
 		return
 	}
 
-		var fb *ssa.Call
-		an.AllInstrs(sk, func(in ssa.Instruction) {
-			if call, ok := in.(*ssa.Call); ok && an.CalleeIs(&call.Call, "fix", "KeyValue.FromBytes") {
-				fb = call
+	var fb *ssa.Call
+	an.AllInstrs(sk, func(in ssa.Instruction) {
+		if call, ok := in.(*ssa.Call); ok && an.CalleeIs(&call.Call, "fix", "KeyValue.FromBytes") {
+			fb = call
+		}
+	})
+	var bad []string
+	if fb == nil || an.Render(fb.Call.Args[0]) != "el" {
+		bad = append(bad, "scanKeyValue does not hand the value to el.FromBytes")
+	} else {
+		paths, _ := an.EnumPaths(sk, 256)
+		n := 0
+		for _, p := range paths {
+			if !p.Passes(fb) {
+				continue
 			}
-		})
-		var bad []string
-		if fb == nil || an.Render(fb.Call.Args[0]) != "el" {
-			bad = append(bad, "scanKeyValue does not hand the value to el.FromBytes")
-		} else {
-			paths, _ := an.EnumPaths(sk, 256)
-			n := 0
-			for _, p := range paths {
-				if !p.Passes(fb) {
-					continue
-				}
-				n++
-				arg := an.ResolveOnPath(fb.Call.Args[1], p)
-				outer, ok := arg.(*ssa.Slice)
-				if !ok || outer.Low != nil || outer.High == nil {
-					bad = append(bad, "the value handed to FromBytes is "+an.RenderOnPath(arg, p)+", not a sub-slice value[:end] of the input")
-					continue
-				}
-				inner, ok := an.ResolveOnPath(outer.X, p).(*ssa.Slice)
-				if !ok || inner.High != nil || inner.Low == nil || an.Render(inner.X) != "data" {
-					bad = append(bad, "the value does not start inside data after the matched tag")
-					continue
-				}
-				// start = match + len(tag=)
-				pr := an.NewProver(sk, p, fb, nil)
-				start := pr.Lin(inner.Low)
-				// start − len("tag=") must be 0 (the field starts the data) or (anchored search result + 1)
-				tagLen := an.LForm{C: map[string]int64{"len(el.Key)": 1}, K: 1}
-				m := start.Add(tagLen, -1)
-				okStart := m.IsConst() && m.K == 0
-				if !okStart {
-					an.AllInstrs(sk, func(in ssa.Instruction) {
-						if call, ok := in.(*ssa.Call); ok && an.CalleeIs(&call.Call, "bytes", "Index") && an.Render(call.Call.Args[0]) == "data" {
-							ev := &an.SeqEval{}
-							if ev.Eval(call.Call.Args[1]).Norm().String() == "'␁'·⟨el.Key⟩·'='" {
-								if m.String() == pr.Lin(call).Add(an.LForm{C: map[string]int64{}, K: 1}, 1).String() {
-									okStart = true
-								}
+			n++
+			arg := an.ResolveOnPath(fb.Call.Args[1], p)
+			outer, ok := arg.(*ssa.Slice)
+			if !ok || outer.Low != nil || outer.High == nil {
+				bad = append(bad, "the value handed to FromBytes is "+an.RenderOnPath(arg, p)+", not a sub-slice value[:end] of the input")
+				continue
+			}
+			inner, ok := an.ResolveOnPath(outer.X, p).(*ssa.Slice)
+			if !ok || inner.High != nil || inner.Low == nil || an.Render(inner.X) != "data" {
+				bad = append(bad, "the value does not start inside data after the matched tag")
+				continue
+			}
+			// start = match + len(tag=)
+			pr := an.NewProver(sk, p, fb, nil)
+			start := pr.Lin(inner.Low)
+			// start − len("tag=") must be 0 (the field starts the data) or (anchored search result + 1)
+			tagLen := an.LForm{C: map[string]int64{"len(el.Key)": 1}, K: 1}
+			m := start.Add(tagLen, -1)
+			okStart := m.IsConst() && m.K == 0
+			if !okStart {
+				an.AllInstrs(sk, func(in ssa.Instruction) {
+					if call, ok := in.(*ssa.Call); ok && an.CalleeIs(&call.Call, "bytes", "Index") && an.Render(call.Call.Args[0]) == "data" {
+						ev := &an.SeqEval{}
+						if ev.Eval(call.Call.Args[1]).Norm().String() == "'␁'·⟨el.Key⟩·'='" {
+							if m.String() == pr.Lin(call).Add(an.LForm{C: map[string]int64{}, K: 1}, 1).String() {
+								okStart = true
 							}
 						}
-					})
-				}
-				if !okStart {
-					bad = append(bad, fmt.Sprintf("the value starts at %s: that is not right after a 'tag=' matched at the start of the data or by the SOH-anchored search", start.String()))
-				}
-				// end: first delimiter in the rest, or its end
-				endR := an.RenderOnPath(outer.High, p)
-				rest := an.RenderOnPath(inner, p)
-				okEnd := false
-				if hi, ok := an.ResolveOnPath(outer.High, p).(*ssa.Call); ok && an.CalleeIs(&hi.Call, "bytes", "Index") && an.ResolveOnPath(hi.Call.Args[0], p) == ssa.Value(inner) {
-					ev := &an.SeqEval{}
-					if ev.Eval(hi.Call.Args[1]).Norm().String() == "'␁'" && p.Has(an.Render(hi)+" != -1") {
-						okEnd = true
 					}
-				}
-				if endR == "len("+rest+")" {
+				})
+			}
+			if !okStart {
+				bad = append(bad, fmt.Sprintf("the value starts at %s: that is not right after a 'tag=' matched at the start of the data or by the SOH-anchored search", start.String()))
+			}
+			// end: first delimiter in the rest, or its end
+			endR := an.RenderOnPath(outer.High, p)
+			rest := an.RenderOnPath(inner, p)
+			okEnd := false
+			if hi, ok := an.ResolveOnPath(outer.High, p).(*ssa.Call); ok && an.CalleeIs(&hi.Call, "bytes", "Index") && an.ResolveOnPath(hi.Call.Args[0], p) == ssa.Value(inner) {
+				ev := &an.SeqEval{}
+				if ev.Eval(hi.Call.Args[1]).Norm().String() == "'␁'" && p.Has(an.Render(hi)+" != -1") {
 					okEnd = true
 				}
-				if !okEnd {
-					bad = append(bad, "the value ends at "+endR+", not at the first delimiter after it (or the end of the data)")
-				}
 			}
-			if n == 0 {
-				bad = append(bad, "no path reaches FromBytes")
+			if endR == "len("+rest+")" {
+				okEnd = true
 			}
-		}
-		c.Check(len(bad) == 0, rule, "state.scanKeyValue", "value = data[match+len(tag=) : next SOH or end], handed to FromBytes unmodified", sk.Pos(), "exact sub-slice", strings.Join(bad, "; "))
-		// a field that is not found leaves the element untouched and is not an error
-		paths, _ := an.EnumPaths(sk, 256)
-		okAbsent := false
-		for _, p := range paths {
-			if p.Return != nil && !p.Passes(fb) && p.Results[0] == "nil" {
-				okAbsent = true
+			if !okEnd {
+				bad = append(bad, "the value ends at "+endR+", not at the first delimiter after it (or the end of the data)")
 			}
 		}
-		c.Check(okAbsent, rule, "state.scanKeyValue", "an absent field is not an error", sk.Pos(), "return nil", "a template field that is not in the message makes parsing fail")
+		if n == 0 {
+			bad = append(bad, "no path reaches FromBytes")
+		}
 	}
+	c.Check(len(bad) == 0, rule, "state.scanKeyValue", "value = data[match+len(tag=) : next SOH or end], handed to FromBytes unmodified", sk.Pos(), "exact sub-slice", strings.Join(bad, "; "))
+	// a field that is not found leaves the element untouched and is not an error
+	paths, _ := an.EnumPaths(sk, 256)
+	okAbsent := false
+	for _, p := range paths {
+		if p.Return != nil && !p.Passes(fb) && p.Results[0] == "nil" {
+			okAbsent = true
+		}
+	}
+	c.Check(okAbsent, rule, "state.scanKeyValue", "an absent field is not an error", sk.Pos(), "return nil", "a template field that is not in the message makes parsing fail")
+}
